@@ -32,12 +32,14 @@ THEOREMS = [
     "Optyx.Props.C12.jac_call_substParams",
     "Optyx.Props.C12.artefacts_independent_of_store",
     "Optyx.Props.C12.param_refinement_partial",
+    "Optyx.Props.C12.hess_call_substParams",
+    "Optyx.Props.C12.param_refinement",
 ]
 ASSUMPTIONS = [
     "regular points: where a Parameter is the *exponent* of a power, the base is non-zero (at base 0 the general power "
     "rule x**p * (p/x) gives 0*inf = nan, sanitised to 0, while the constant model's rule n*x**(n-1) gives the true value)",
     "scalar Parameters (VectorParameter elements are scalar Parameters; MatrixParameter has no symbolic form: finding F11)",
-    "Hessian observations are covered by the fresh-constant-model oracle on the real code, not by the Lean theorem",
+    "Hessian observations: proved at regular points of well-formed models (param_refinement); also covered by the fresh-constant-model oracle on the real code",
 ]
 
 PV = [-2.0, -1.0, -0.5, 0.5, 1.0, 1.5, 2.0, 3.0, 0.0, 0.25]
